@@ -87,6 +87,10 @@ pub struct SimState<O, I> {
     pub read_waker: Option<Waker>,
     pub write_waker: Option<Waker>,
     pub calls_this_poll: usize,
+    /// bookkeeping for `settle`: a connection-ending failure was reported; bodies of requests written
+    pub term_seen: bool,
+    pub sent_bodies: Vec<u64>,
+    pub body_of: Option<fn(&O) -> Option<u64>>,
     pub show_out: fn(&O) -> String,
     pub show_in: fn(&I) -> String,
 }
@@ -116,6 +120,9 @@ impl<O, I> SimState<O, I> {
             read_waker: None,
             write_waker: None,
             calls_this_poll: 0,
+            term_seen: false,
+            sent_bodies: vec![],
+            body_of: None,
             show_out,
             show_in,
         }
@@ -199,6 +206,7 @@ impl<O, I> Stream for SimTransport<O, I> {
         s.count();
         if s.fault_next {
             s.fault_next = false;
+            s.term_seen = true;
             log(format!("T {} next E", s.name));
             return Poll::Ready(Some(Err(SimError("next"))));
         }
@@ -208,6 +216,7 @@ impl<O, I> Stream for SimTransport<O, I> {
                 Poll::Ready(Some(Ok(m)))
             }
             Some(Inb::Err) => {
+                s.term_seen = true;
                 log(format!("T {} next E", s.name));
                 Poll::Ready(Some(Err(SimError("next"))))
             }
@@ -234,6 +243,7 @@ impl<O, I> Sink<O> for SimTransport<O, I> {
         let r = if s.fault_ready {
             s.fault_ready = false;
             s.failed = true;
+            s.term_seen = true;
             Poll::Ready(Err(SimError("ready")))
         } else if s.is_ready_now() {
             s.got_ready = true;
@@ -254,10 +264,17 @@ impl<O, I> Sink<O> for SimTransport<O, I> {
         }
         let text = (s.show_out)(&item);
         s.got_ready = false;
+        let body = s.body_of.and_then(|f| f(&item));
         if s.fault_send {
             s.fault_send = false;
+            if body.is_none() {
+                s.term_seen = true; // a failed cancel / response write ends the connection
+            }
             log(format!("T {} send {} E", s.name, text));
             return Err(SimError("send"));
+        }
+        if let Some(b) = body {
+            s.sent_bodies.push(b);
         }
         s.buffered.push(item);
         log(format!("T {} send {} ok", s.name, text));
@@ -270,6 +287,7 @@ impl<O, I> Sink<O> for SimTransport<O, I> {
         let r = if s.fault_flush {
             s.fault_flush = false;
             s.failed = true;
+            s.term_seen = true;
             Poll::Ready(Err(SimError("flush")))
         } else if s.coupled && !s.flush_open && !s.buffered.is_empty() {
             s.write_waker = Some(cx.waker().clone());
@@ -290,6 +308,7 @@ impl<O, I> Sink<O> for SimTransport<O, I> {
         let r = if s.fault_close {
             s.fault_close = false;
             s.failed = true;
+            s.term_seen = true;
             Poll::Ready(Err(SimError("close")))
         } else if s.coupled && !s.flush_open && !s.buffered.is_empty() {
             s.write_waker = Some(cx.waker().clone());
